@@ -23,6 +23,8 @@ import DPL.Proofs.RealCarrier
 import DPL.Proofs.ContinuousCalib
 import DPL.Proofs.ContinuousIntegrals
 import DPL.Proofs.ContinuousMoments
+import DPL.Proofs.ContinuousTruncIntegrals
+import DPL.Proofs.ContinuousTruncLaw
 import Mathlib.MeasureTheory.Integral.IntervalIntegral.FundThmCalculus
 import Mathlib.Analysis.SpecialFunctions.Integrals.Basic
 
@@ -301,5 +303,136 @@ theorem bounded_domain_moments_partial (s l u v I1 I2 J1 J2 : ℝ) (hs : s ≠ 0
   have hD' : 2 - (A + B) ≠ 0 := by intro h; apply hD; linarith
   field_simp
   ring
+
+/-! ## truncated and bounded-domain Laplace: the integral evaluations discharged, hypothesis-free statements -/
+
+/-- the second integral evaluation of `truncated_moments_partial` (hypothesis `hI2`) -/
+theorem truncated_integral_I2 (b u v : ℝ) (hb : b ≠ 0) :
+    (∫ y in v..u, y * (Real.exp ((v - y) / b) / (2 * b))) =
+      (v + b) / 2 - (u + b) * Real.exp ((v - u) / b) / 2 := by
+  rw [integral_down1 b v v u hb]
+  simp only [sub_self, zero_div, Real.exp_zero, mul_one]
+
+/-- the third (hypothesis `hJ1`) -/
+theorem truncated_integral_J1 (b l v : ℝ) (hb : b ≠ 0) :
+    (∫ y in l..v, y ^ 2 * (Real.exp ((y - v) / b) / (2 * b))) =
+      (v ^ 2 - 2 * b * v + 2 * b ^ 2) / 2 - (l ^ 2 - 2 * b * l + 2 * b ^ 2) * Real.exp ((l - v) / b) / 2 := by
+  rw [integral_up2 b v l v hb]
+  simp only [sub_self, zero_div, Real.exp_zero, mul_one]
+
+/-- the fourth (hypothesis `hJ2`) -/
+theorem truncated_integral_J2 (b u v : ℝ) (hb : b ≠ 0) :
+    (∫ y in v..u, y ^ 2 * (Real.exp ((v - y) / b) / (2 * b))) =
+      (v ^ 2 + 2 * b * v + 2 * b ^ 2) / 2 - (u ^ 2 + 2 * b * u + 2 * b ^ 2) * Real.exp ((v - u) / b) / 2 := by
+  rw [integral_down2 b v v u hb]
+  simp only [sub_self, zero_div, Real.exp_zero, mul_one]
+
+/-- the point masses of the truncated law are the Laplace tails: `P[X ≤ l] = e^{(l-v)/b}/2`, `P[X > u] = e^{(v-u)/b}/2`,
+and the mass of the domain is `1 - E₁/2 - E₂/2` (the normaliser `C` of the bounded-domain law) -/
+theorem laplace_tail_masses (b l u v : ℝ) (hb : 0 < b) (hlv : l ≤ v) (hvu : v ≤ u) :
+    lapMeasure b v (Set.Iic l) = ENNReal.ofReal (Real.exp ((l - v) / b) / 2) ∧
+    lapMeasure b v (Set.Ioi u) = ENNReal.ofReal (Real.exp ((v - u) / b) / 2) ∧
+    lapMeasure b v (Set.Icc l u) =
+      ENNReal.ofReal (1 - Real.exp ((l - v) / b) / 2 - Real.exp ((v - u) / b) / 2) := by
+  refine ⟨?_, ?_, lapMeasure_Icc b l u v hb hlv hvu⟩
+  · rw [lapMeasure_eq_ofReal b v hb _ measurableSet_Iic, integral_lapDensity_Iic b v l hb hlv]
+  · rw [lapMeasure_eq_ofReal b v hb _ measurableSet_Ioi, integral_lapDensity_Ioi b v u hb hvu]
+
+/-- both laws are probability laws -/
+theorem moment_laws_normalised (b l u v : ℝ) (hb : 0 < b) (hlu : l < u) (hlv : l ≤ v) (hvu : v ≤ u) :
+    truncLaw b l u v Set.univ = 1 ∧ bdLaw b l u v Set.univ = 1 :=
+  ⟨truncLaw_univ b l u v hb, bdLaw_univ b l u v hb hlu hlv hvu⟩
+
+/-- **truncated Laplace** (`LaplaceTruncated.bias/variance`), hypothesis-free: for a value inside a finite domain
+(`l ≤ v ≤ u`) and scale `b > 0`, with `law` = the law of `clamp(v + Laplace(b))` (`truncLaw`: the push-forward of the
+Laplace measure under `y ↦ max l (min y u)`),
+  mean − v = coded bias,   second moment − mean² = coded variance,
+and in the forms  `E[Y − v]`  and  `E[(Y − E Y)²]`. -/
+theorem truncated_moments (b l u v : ℝ) (hb : 0 < b) (hlv : l ≤ v) (hvu : v ≤ u) :
+    (∫ y, y ∂(truncLaw b l u v)) - v = truncBiasOf b l u v ∧
+    (∫ y, y ^ 2 ∂(truncLaw b l u v)) - (∫ y, y ∂(truncLaw b l u v)) ^ 2 = truncVarianceOf b l u v ∧
+    (∫ y, (y - v) ∂(truncLaw b l u v)) = truncBiasOf b l u v ∧
+    (∫ y, (y - ∫ z, z ∂(truncLaw b l u v)) ^ 2 ∂(truncLaw b l u v)) = truncVarianceOf b l u v := by
+  have hb' : b ≠ 0 := hb.ne'
+  have hM0 := lap_M0 b l u v hb' hlv hvu
+  have hM1 := lap_M1 b l u v hb' hlv hvu
+  have hM2 := lap_M2 b l u v hb' hlv hvu
+  have hmean : (∫ y, y ∂(truncLaw b l u v)) =
+      l * (Real.exp ((l - v) / b) / 2) + (∫ y in l..u, y * lapDensity b v y) + u * (Real.exp ((v - u) / b) / 2) :=
+    integral_clampLaw (fun y => y) continuous_id b l u v hb hlv hvu
+  have hsec : (∫ y, y ^ 2 ∂(truncLaw b l u v)) =
+      l ^ 2 * (Real.exp ((l - v) / b) / 2) + (∫ y in l..u, y ^ 2 * lapDensity b v y) +
+        u ^ 2 * (Real.exp ((v - u) / b) / 2) :=
+    integral_clampLaw (fun y => y ^ 2) (by fun_prop) b l u v hb hlv hvu
+  have hcen1 : (∫ y, (y - v) ∂(truncLaw b l u v)) =
+      (l - v) * (Real.exp ((l - v) / b) / 2) + (∫ y in l..u, (y - v) * lapDensity b v y) +
+        (u - v) * (Real.exp ((v - u) / b) / 2) :=
+    integral_clampLaw (fun y => y - v) (by fun_prop) b l u v hb hlv hvu
+  generalize (∫ y, y ∂(truncLaw b l u v)) = mean at *
+  have hcen2 : (∫ y, (y - mean) ^ 2 ∂(truncLaw b l u v)) =
+      (l - mean) ^ 2 * (Real.exp ((l - v) / b) / 2) + (∫ y in l..u, (y - mean) ^ 2 * lapDensity b v y) +
+        (u - mean) ^ 2 * (Real.exp ((v - u) / b) / 2) :=
+    integral_clampLaw (fun y => (y - mean) ^ 2) (by fun_prop) b l u v hb hlv hvu
+  rw [lap_centered1, hM0] at hcen1
+  rw [lap_centered2, hM0] at hcen2
+  have hp := truncated_moments_partial b l u v _ _ _ _ hb' rfl rfl rfl rfl
+  dsimp only at hp
+  obtain ⟨p1, p2⟩ := hp
+  rw [hM1] at hmean hcen1 hcen2
+  rw [hM2] at hsec hcen2
+  have hm' : mean = l * (Real.exp ((l - v) / b) / 2) + ((v - b) / 2 - (l - b) * Real.exp ((l - v) / b) / 2) +
+      ((v + b) / 2 - (u + b) * Real.exp ((v - u) / b) / 2) + u * (Real.exp ((v - u) / b) / 2) := by
+    rw [hmean]; ring
+  have c1 : mean - v = truncBiasOf b l u v := by rw [hm']; exact p1
+  have c2 : (∫ y, y ^ 2 ∂(truncLaw b l u v)) - mean ^ 2 = truncVarianceOf b l u v := by
+    rw [← p2, hsec, hm']; ring
+  refine ⟨c1, c2, ?_, ?_⟩
+  · rw [← c1, hcen1, hmean]; ring
+  · rw [← c2, hcen2, hsec]
+    linear_combination (2 * mean) * hmean
+
+/-- **bounded-domain Laplace** (`LaplaceBoundedDomain.bias/variance`), hypothesis-free: for a value inside a finite
+non-degenerate domain (`l ≤ v ≤ u`, `l < u`) and ANY scale `s > 0` (whatever the calibration returned), with `law` = the
+Laplace law conditioned on `[l, u]` (`bdLaw`: the restriction divided by the mass of the domain),
+  mean − v = coded bias,   second moment − mean² = coded variance,
+and in the forms  `E[Y − v]`  and  `E[(Y − E Y)²]`. -/
+theorem bounded_domain_moments (s l u v : ℝ) (hs : 0 < s) (hlu : l < u) (hlv : l ≤ v) (hvu : v ≤ u) :
+    (∫ y, y ∂(bdLaw s l u v)) - v = bdBiasOf s l u v ∧
+    (∫ y, y ^ 2 ∂(bdLaw s l u v)) - (∫ y, y ∂(bdLaw s l u v)) ^ 2 = bdVarianceOf s l u v ∧
+    (∫ y, (y - v) ∂(bdLaw s l u v)) = bdBiasOf s l u v ∧
+    (∫ y, (y - ∫ z, z ∂(bdLaw s l u v)) ^ 2 ∂(bdLaw s l u v)) = bdVarianceOf s l u v := by
+  have hs' : s ≠ 0 := hs.ne'
+  have hC := lap_M0_pos s l u v hs hlu hlv hvu
+  have hM0 := lap_M0 s l u v hs' hlv hvu
+  have hM1 := lap_M1 s l u v hs' hlv hvu
+  have hM2 := lap_M2 s l u v hs' hlv hvu
+  have hmean : (∫ y, y ∂(bdLaw s l u v)) = _ := integral_condLaw (fun y => y) s l u v hs hlu hlv hvu
+  have hsec : (∫ y, y ^ 2 ∂(bdLaw s l u v)) = _ := integral_condLaw (fun y => y ^ 2) s l u v hs hlu hlv hvu
+  have hcen1 : (∫ y, (y - v) ∂(bdLaw s l u v)) = _ := integral_condLaw (fun y => y - v) s l u v hs hlu hlv hvu
+  generalize (∫ y, y ∂(bdLaw s l u v)) = mean at *
+  have hcen2 : (∫ y, (y - mean) ^ 2 ∂(bdLaw s l u v)) = _ :=
+    integral_condLaw (fun y => (y - mean) ^ 2) s l u v hs hlu hlv hvu
+  rw [lap_centered1, hM0] at hcen1
+  rw [lap_centered2, hM0] at hcen2
+  have hp := bounded_domain_moments_partial s l u v _ _ _ _ hs' hC.ne' rfl rfl rfl rfl
+  dsimp only at hp
+  obtain ⟨p1, p2⟩ := hp
+  rw [hM1] at hmean hcen1 hcen2
+  rw [hM2] at hsec hcen2
+  have c1 : mean - v = bdBiasOf s l u v := by rw [hmean]; exact p1
+  have c2 : (∫ y, y ^ 2 ∂(bdLaw s l u v)) - mean ^ 2 = bdVarianceOf s l u v := by
+    rw [← p2, hsec, hmean]
+  refine ⟨c1, c2, ?_, ?_⟩
+  · rw [← c1, hcen1, hmean]
+    field_simp
+  · rw [← c2, hcen2, hsec]
+    generalize (1 - Real.exp ((l - v) / s) / 2 - Real.exp ((v - u) / s) / 2) = C at *
+    have hC' : C ≠ 0 := hC.ne'
+    rw [hmean]
+    field_simp
+    ring
+
+/-- non-vacuity of the hypotheses of `truncated_moments` / `bounded_domain_moments` -/
+example : (0:ℝ) < 1 ∧ (0:ℝ) < 2 ∧ (0:ℝ) ≤ 1 ∧ (1:ℝ) ≤ 2 := by norm_num
 
 end DPL.C19
